@@ -18,7 +18,9 @@ NAME_PIECES = ["rule", "é", "€", " ", "#", '"', "x", "1", ":", ";", "{", "Fil
                "à", "Å", "ą", "Ġ", "丠", "\u00a0x", "x\u2003y", "\u0085z", "ı", "ﬀ",
                # text that changes under Unicode normalisation or case folding: it must come back code point for code point
                "e\u0301", "\u212b", "\u2126", "\uf900", "q\u0323\u0307", "q\u0307\u0323", "ǅ", "İ", "ß", "ﬁ",
-               "%", "%s", "%(name)s", "{}", "{0}", "%%"]
+               "%", "%s", "%(name)s", "{}", "{0}", "%%",
+               # a carriage return INSIDE the line (no line feed): still one line of the saved script, and part of the text
+               "Lists\rarchive", "old\rkeep;", "a\r#b", "x\r"]
 # values of conditions and actions: the safe alphabet plus line ends inside a value (a reason, a rejection text over several
 # lines): what is saved must be what the set holds, line ends included
 VALUE_PIECES = gen_factory.SAFE_PIECES + ["\r\n", "\n", "\r", "line one\r\nline two"]
